@@ -242,6 +242,12 @@ func (w *Worker) RunKernel(kc *KernelCase, property string) *SkelResult {
 			}
 			in := nativeArgs(md)
 			ok, pan := callNative(in)
+			if kc.AllOrders {
+				// the engine chose a map iteration order; natively the order is random: repeat
+				for try := 0; try < 60 && ok && pan == nil; try++ {
+					ok, pan = callNative(in)
+				}
+			}
 			f := Finding{Property: property, Skeleton: kc.Name, Family: "kernel", Doc: kc.Func, GoValue: describe(in), Instance: describe(in), Expected: "kernel " + kc.Func + " returns true"}
 			switch {
 			case pan != nil:
@@ -377,15 +383,15 @@ func init() {
 		var cases []*KernelCase
 		for n := 0; n <= maxO; n++ {
 			cases = append(cases, &KernelCase{Name: fmt.Sprintf("order.len%d", n), Func: "VerifKernelPropertyOrder", Native: jsonschema.VerifKernelPropertyOrder, AllOrders: true, SchemaMarshalsTrue: true,
-				Args: []ArgSpec{boolArg(), boolArg(), boolArg(), boolArg(), strArg(n, "abcdz")}})
+				Args: []ArgSpec{boolArg(), boolArg(), boolArg(), boolArg(), strArg(n, "abcBz")}})
 		}
 		for n := 0; n <= 2; n++ {
 			cases = append(cases, &KernelCase{Name: fmt.Sprintf("order-after-failed-marshal.len%d", n), Func: "VerifKernelPropertyOrderAfterFailure", Native: jsonschema.VerifKernelPropertyOrderAfterFailure, AllOrders: true, SchemaMarshalsTrue: true,
-				Args: []ArgSpec{boolArg(), boolArg(), boolArg(), boolArg(), strArg(n, "abcdz")}})
+				Args: []ArgSpec{boolArg(), boolArg(), boolArg(), boolArg(), strArg(n, "abcBz")}})
 		}
 		cc.RunKernels(r, cases)
 		r.Bounds = append(r.Bounds, "the same kernel after a Marshal that failed half-way (order lists of length <= 2): nothing of the failed call may be visible (sync.Pool modelled as returning any object put back earlier or a fresh one)")
-		r.Bounds = append(r.Bounds, fmt.Sprintf("real SSA of orderedProperties.MarshalJSON and basicChecks: properties = every subset of {a,b,c,d} (symbolic presence), PropertyOrder = every sequence of length <= %d over {a,b,c,d,z} (z names no property; duplicates allowed), every map iteration order; json.Marshal of the (empty) property schemas is stubbed to the bytes `true`", maxO))
+		r.Bounds = append(r.Bounds, fmt.Sprintf("real SSA of orderedProperties.MarshalJSON and basicChecks: properties = every subset of {a,b,c,B} (symbolic presence; b and B differ only in case), PropertyOrder = every sequence of length <= %d over {a,b,c,B,z} (z names no property; duplicates allowed), every map iteration order; json.Marshal of the (empty) property schemas is stubbed to the bytes `true`", maxO))
 		r.Outside = append(r.Outside, "determinism of the rest of Marshal (encoding/json sorts map keys; its body is not encoded); nested schemas with their own PropertyOrder beyond one level")
 	}
 }
